@@ -12,7 +12,7 @@ COQ_DEPS = ["C03"]
 PROFILES = ["debug", "release"]
 CORR_IMPORT = "From RlibV Require Import C03.Model C03.Corr C16.Model C16.Corr.\nOpen Scope Z_scope."
 AUDIT_IMPORT = ("From Coq Require Import ZArith List Bool.\nImport ListNotations.\n"
-                "From RlibV Require Import C03.Model C03.Corr C03.Proofs C16.Model C16.Corr C16.Proofs C16.ProofsStrict C16.ProofsHist C16.Properties.\nOpen Scope Z_scope.")
+                "From RlibV Require Import C03.Model C03.Corr C03.Proofs C16.Model C16.ModelFam C16.Corr C16.Proofs C16.ProofsStrict C16.ProofsHist C16.ProofsTight C16.Properties.\nOpen Scope Z_scope.")
 EXPLAIN = "explain"
 CASE_TYPE = "case"
 AXIOM_ALLOW = []
@@ -41,6 +41,8 @@ THEOREMS = [
      'forall c : case, model_check c = true -> spec_check c = true'),
     ('c16_height_partial',
      'forall k : Z, 0 <= k <= 14 -> let n := 2 ^ k in (height (fam step_append n) <= 5 * Z.log2 (n + 1) + 20 /\\ Heap (fam step_append n) /\\ tsize isize (fam step_append n) = n) /\\ (height (fam step_front n) <= 5 * Z.log2 (n + 1) + 20 /\\ Heap (fam step_front n) /\\ tsize isize (fam step_front n) = n) /\\ (height (fam step_rotate n) <= 5 * Z.log2 (n + 1) + 20 /\\ Heap (fam step_rotate n) /\\ tsize isize (fam step_rotate n) = n)'),
+    ('c16_height_tight_partial',
+     'forall k : Z, 0 <= k <= 13 -> let n := 2 ^ k in Forall (fun step => height (fam step n) <= 3 * Z.log2 (n + 1) + 12 /\\ Heap (fam step n) /\\ tsize isize (fam step n) = n) [step_append; step_front; step_rotate; step_deque; step_middle; step_mergebuild]'),
 ]
 RULE = ("the multi-treap histories of C03, including move = remove_at followed by insert_at of the returned item object, whose new node "
         "draws a new priority (two item kinds; priorities random / tiny range with ties / all equal / increasing / "
